@@ -252,7 +252,7 @@ def observe(seed, tier, extra_args=()):
         # the harness stops after an execution that left goroutines behind (they would disturb the next
         # ones); the remaining cases are run in fresh processes so that other failures are still looked for
         restarts = 0
-        while restarts < (12 if tier == "quick" else 40):
+        while restarts < (5 if tier == "quick" else 20):     # bounded: on a tree that gets stuck often the check must still end in minutes
             m = re.search(r"stopping after case (\d+)", err or "")
             if not m or int(m.group(1)) + 1 >= int(plan[1]):
                 break
@@ -264,10 +264,16 @@ def observe(seed, tier, extra_args=()):
         # a watchdog expiry without a stable all-blocked dump is slowness (machine under load), not a
         # hang: decide such an execution again with a much longer watchdog
         for k, r in enumerate(recs):
+            if (r.get("caller_hung") or r.get("hang")) and not r.get("hang_stable") and summary.get("slow_reruns", 0) >= (2 if tier == "quick" else 10):
+                # enough executions have been decided again with the long watchdog; the others stay undecided
+                r["caller_hung"], r["hang"], r["undecided"] = False, "", True
+                summary["undecided_slow"] = summary.get("undecided_slow", 0) + 1
+                continue
             if (r.get("caller_hung") or r.get("hang")) and not r.get("hang_stable"):
                 # (the second case: goroutines still alive 3 s after the call returned - also decided again, with 30 s)
                 rc2, out2, err2 = common.run([exe, "-seed", str(seed * 1000 + pi)] + plan + list(extra_args) +
-                                             ["-only", str(r["cfg"]["case"]), "-hang-after", "60s", "-quiesce", "30s"], timeout=600, check=False, env=runenv)
+                                             ["-only", str(r["cfg"]["case"])] + (["-hang-after", "30s", "-quiesce", "15s"] if tier == "quick" else ["-hang-after", "60s", "-quiesce", "30s"]),
+                                             timeout=600, check=False, env=runenv)
                 again = [json.loads(l) for l in out2.split("\n") if l.strip()]
                 summary["slow_reruns"] = summary.get("slow_reruns", 0) + 1
                 if again:
@@ -275,6 +281,8 @@ def observe(seed, tier, extra_args=()):
                     recs[k]["reran"] = True
         lines_full, idx = [], []
         for r in recs:
+            if r.get("undecided"):
+                continue
             summary["executions"] += 1
             summary["events"] += len(r["events"])
             cfg = r["cfg"]
